@@ -4,6 +4,7 @@
 #include <poll.h>
 #include <fcntl.h>
 #include <cerrno>
+#include <cstring>
 #include <cstdarg>
 #include <algorithm>
 
@@ -15,6 +16,9 @@ int __real_fcntl(int, int, ...);
 int __real_close(int);
 int __real_dup(int);
 int __real_getsockopt(int, int, int, void *, socklen_t *);
+ssize_t __real_sendmsg(int, const struct msghdr *, int);
+ssize_t __real_recvmsg(int, struct msghdr *, int);
+ssize_t __real_sendto(int, const void *, size_t, int, const struct sockaddr *, socklen_t);
 }
 
 #include <cstdio>
@@ -34,6 +38,12 @@ Fd *get(int fd) {
 	return &S.fds[fd - 1000];
 }
 Chan *chan(int i) { return (i < 0 || (size_t) i >= S.chans.size()) ? 0 : &S.chans[i]; }
+int new_dchan() { S.dchans.push_back(DChan()); return (int) S.dchans.size() - 1; }
+int new_dgram_fd(int r, int w) { int fd = new_fd(r, w, O_RDWR | O_NONBLOCK); get(fd)->dgram = true; return fd; }
+DChan *dchan(int i) { return (i < 0 || (size_t) i >= S.dchans.size()) ? 0 : &S.dchans[i]; }
+bool ddeliver(int ci, size_t idx) { DChan *c = dchan(ci); if (!c || idx >= c->wire.size()) return false; c->avail.push_back(c->wire[idx]); c->wire.erase(c->wire.begin() + (ptrdiff_t) idx); return true; }
+bool ddrop(int ci, size_t idx) { DChan *c = dchan(ci); if (!c || idx >= c->wire.size()) return false; c->wire.erase(c->wire.begin() + (ptrdiff_t) idx); return true; }
+bool ddup(int ci, size_t idx) { DChan *c = dchan(ci); if (!c || idx >= c->wire.size()) return false; c->wire.push_back(c->wire[idx]); return true; }
 size_t deliver(int ci, size_t n) {
 	Chan *c = chan(ci); if (!c) return 0;
 	size_t k = std::min(n, c->wire.size());
@@ -48,7 +58,7 @@ ssize_t __wrap_readv(int fd, const struct iovec *iov, int cnt) {
 	if (fd < 1000) return __real_readv(fd, iov, cnt);
 	Fd *f = get(fd);
 	++S.readv_calls;
-	if (!f || !f->open || f->rchan < 0) { errno = EBADF; return -1; }
+	if (!f || !f->open || f->rchan < 0 || f->dgram) { errno = EBADF; return -1; }
 	Chan *c = chan(f->rchan);
 	int fault = f->rfault; int64_t fa = f->rfa; f->rfault = 0;
 	if (fault == F_EAGAIN) { ++S.f_eagain_r; errno = EAGAIN; return -1; }
@@ -77,7 +87,7 @@ ssize_t __wrap_writev(int fd, const struct iovec *iov, int cnt) {
 	Fd *f = get(fd);
 	++S.writev_calls;
 	DBG("writev fd=%d f=%p open=%d wchan=%d\n", fd, (void *) f, f ? f->open : -1, f ? f->wchan : -9);
-	if (!f || !f->open || f->wchan < 0) { errno = EBADF; return -1; }
+	if (!f || !f->open || f->wchan < 0 || f->dgram) { errno = EBADF; return -1; }
 	Chan *c = chan(f->wchan);
 	int fault = f->wfault; int64_t fa = f->wfa; f->wfault = 0;
 	if (fault == F_EAGAIN) { ++S.f_eagain_w; errno = EAGAIN; return -1; }
@@ -111,6 +121,13 @@ int __wrap_poll(struct pollfd *p, nfds_t n, int timeout) {
 		p[i].revents = 0;
 		Fd *f = get(p[i].fd);
 		if (!f || !f->open) { p[i].revents = POLLNVAL; ++ready; continue; }
+		if (f->dgram) {
+			DChan *c = dchan(f->rchan);
+			if ((p[i].events & POLLIN) && c && !c->avail.empty()) p[i].revents |= POLLIN;
+			if (p[i].events & POLLOUT) p[i].revents |= POLLOUT;
+			if (p[i].revents) ++ready;
+			continue;
+		}
 		if (f->rchan >= 0) {
 			Chan *c = chan(f->rchan);
 			if ((p[i].events & POLLIN) && !c->avail.empty()) p[i].revents |= POLLIN;
@@ -152,6 +169,7 @@ int __wrap_close(int fd) {
 	++f->closes;
 	if (!f->open) { errno = EBADF; return -1; }
 	f->open = false;
+	if (f->dgram) return 0;
 	if (f->wchan >= 0) chan(f->wchan)->wclosed = true;
 	if (f->rchan >= 0) chan(f->rchan)->rclosed = true;
 	return 0;
@@ -160,6 +178,7 @@ int __wrap_dup(int fd) {
 	if (fd < 1000) return __real_dup(fd);
 	Fd *f = get(fd);
 	if (!f || !f->open) { errno = EBADF; return -1; }
+	if (f->dgram) return new_dgram_fd(f->rchan, f->wchan);
 	return new_fd(f->rchan, f->wchan, f->flags);
 }
 int __wrap_getsockopt(int fd, int level, int name, void *val, socklen_t *len) {
@@ -167,8 +186,53 @@ int __wrap_getsockopt(int fd, int level, int name, void *val, socklen_t *len) {
 	Fd *f = get(fd);
 	if (!f || !f->open) { errno = EBADF; return -1; }
 	if (level == SOL_SOCKET && name == SO_TYPE && val && len && *len >= sizeof(int)) {
-		*(int *) val = SOCK_STREAM; *len = sizeof(int); return 0;
+		*(int *) val = f->dgram ? SOCK_DGRAM : SOCK_STREAM; *len = sizeof(int); return 0;
 	}
 	errno = ENOPROTOOPT; return -1;
+}
+
+static ssize_t dgram_send(int fd, const struct iovec *iov, size_t cnt) {
+	Fd *f = get(fd);
+	if (!f || !f->open || !f->dgram || f->wchan < 0) { errno = EBADF; return -1; }
+	int fault = f->wfault; f->wfault = 0;
+	if (fault == F_EAGAIN) { ++S.f_eagain_w; errno = EAGAIN; return -1; }
+	if (fault == F_EINTR) { ++S.f_eintr; errno = EINTR; return -1; }
+	if (fault == F_EPIPE) { ++S.f_epipe; errno = ECONNREFUSED; return -1; }
+	if (fault == F_EIO) { errno = EIO; return -1; }
+	std::vector<uint8_t> d;
+	for (size_t i = 0; i < cnt; ++i) { const uint8_t *b = (const uint8_t *) iov[i].iov_base; d.insert(d.end(), b, b + iov[i].iov_len); }
+	DChan *c = dchan(f->wchan);
+	if (dbg()) { fprintf(stderr, "  send fd=%d datagram of %zu:", fd, d.size()); for (size_t k = 0; k < d.size() && k < 48; ++k) fprintf(stderr, " %02x", d[k]); fputc('\n', stderr); }
+	c->wire.push_back(d); ++c->sent;
+	return (ssize_t) d.size();
+}
+ssize_t __wrap_sendmsg(int fd, const struct msghdr *m, int flags) {
+	if (fd < 1000) return __real_sendmsg(fd, m, flags);
+	return dgram_send(fd, m->msg_iov, m->msg_iovlen);
+}
+ssize_t __wrap_sendto(int fd, const void *buf, size_t len, int flags, const struct sockaddr *a, socklen_t al) {
+	if (fd < 1000) return __real_sendto(fd, buf, len, flags, a, al);
+	struct iovec v; v.iov_base = (void *) buf; v.iov_len = len;
+	return dgram_send(fd, &v, 1);
+}
+ssize_t __wrap_recvmsg(int fd, struct msghdr *m, int flags) {
+	if (fd < 1000) return __real_recvmsg(fd, m, flags);
+	Fd *f = get(fd);
+	if (!f || !f->open || !f->dgram || f->rchan < 0) { errno = EBADF; return -1; }
+	int fault = f->rfault; f->rfault = 0;
+	if (fault == F_EAGAIN) { ++S.f_eagain_r; errno = EAGAIN; return -1; }
+	if (fault == F_EINTR) { ++S.f_eintr; errno = EINTR; return -1; }
+	if (fault == F_EIO) { errno = EIO; return -1; }
+	DChan *c = dchan(f->rchan);
+	if (c->avail.empty()) { errno = EAGAIN; return -1; }
+	std::vector<uint8_t> d = c->avail.front(); c->avail.pop_front(); ++c->received;
+	size_t off = 0;
+	for (size_t i = 0; i < m->msg_iovlen && off < d.size(); ++i) {
+		size_t k = std::min(d.size() - off, m->msg_iov[i].iov_len);
+		memcpy(m->msg_iov[i].iov_base, d.data() + off, k); off += k;
+	}
+	m->msg_namelen = 0; m->msg_flags = 0;
+	if (off < d.size()) { m->msg_flags |= MSG_TRUNC; ++c->truncated; }
+	return (ssize_t) off;
 }
 }
